@@ -29,6 +29,46 @@ _EXTRA_DONE = False
 _CUR = {"msg": None}
 
 
+class CrashNow(BaseException):
+    """Simulated death of the scheduler process (raised from inside a database call)."""
+
+
+CRASH = {"left": None, "crashed": False, "conns": []}
+
+
+class CrashConn:
+    """Proxy of a sqlite3 connection: counts statements; when armed, the k-th statement is never
+    executed and every later database call fails too (the process is dead)."""
+
+    def __init__(self, real):
+        object.__setattr__(self, "_real", real)
+        CRASH["conns"].append(real)
+
+    def _gate(self):
+        if CRASH["crashed"]:
+            raise CrashNow()
+        if CRASH["left"] is not None:
+            if CRASH["left"] <= 0:
+                CRASH["crashed"] = True
+                raise CrashNow()
+            CRASH["left"] -= 1
+
+    def execute(self, *a, **k):
+        self._gate()
+        return self._real.execute(*a, **k)
+
+    def executemany(self, *a, **k):
+        self._gate()
+        return self._real.executemany(*a, **k)
+
+    def commit(self):
+        self._gate()
+        return self._real.commit()
+
+    def __getattr__(self, name):
+        return getattr(self._real, name)
+
+
 def ev(kind, **kw):
     kw["e"] = kind
     REC.append(kw)
@@ -72,6 +112,16 @@ def patch():
     from cylc.flow.task_state import TaskState
     from cylc.flow.task_outputs import TaskOutputs
     from cylc.flow.task_events_mgr import TaskEventsManager
+
+    from cylc.flow.rundb import CylcWorkflowDAO
+    o_connect = CylcWorkflowDAO.connect
+
+    def n_connect(self):
+        if self.conn is None:
+            o_connect(self)
+            self.conn = CrashConn(self.conn)
+        return self.conn
+    CylcWorkflowDAO.connect = n_connect
 
     o_init = TaskProxy.__init__
 
@@ -564,6 +614,36 @@ class Session:
         self.go.set()
         return await self.wait_step()
 
+    async def abandon(self):
+        """The scheduler process is dead: no shutdown code runs, open transactions are lost."""
+        if self.task is not None and not self.task.done():
+            self.task.cancel()
+        if self.task is not None:
+            try:
+                await asyncio.wait_for(asyncio.shield(self.task), timeout=10)
+            except BaseException:    # noqa  (CrashNow / CancelledError)
+                pass
+        schd = self.schd
+        for real in CRASH["conns"]:
+            try:
+                real.close()          # no commit: the open transaction is rolled back
+            except Exception:   # noqa
+                pass
+        for dao in (getattr(schd.workflow_db_mgr, "pri_dao", None), getattr(schd.workflow_db_mgr, "pub_dao", None)):
+            if dao is not None:
+                dao.conn = None
+        try:
+            if schd.server is not None:
+                CRASH["crashed"] = False
+                await asyncio.wait_for(schd.server.stop("crash"), timeout=10)
+        except BaseException:    # noqa
+            pass
+        from cylc.flow.workflow_files import get_contact_file_path
+        try:
+            os.unlink(get_contact_file_path(self.wid))
+        except OSError:
+            pass
+
     async def finish(self):
         """Force a shutdown if still running."""
         if self.task is not None and not self.task.done():
@@ -616,12 +696,19 @@ async def run_scenario(scn: dict, home: Path) -> dict:
             ops.setdefault(o["tick"], []).append(o)
         idle = 0
         pending_restart = None
+        pending_crash = None
+        CRASH.update({"left": None, "crashed": False, "conns": []})
         for tick in range(max_ticks):
             world.tick = tick
             meta["ticks"] = tick + 1
             for o in ops.get(tick, []):
                 ev("op", op=o)
-                if o["cmd"] == "restart":
+                if o["cmd"] == "crash":
+                    # die after o["stmts"] more database statements of this iteration (0: at its start);
+                    # if the iteration issues fewer, die at its end
+                    CRASH["left"] = int(o.get("stmts", 0))
+                    pending_crash = o
+                elif o["cmd"] == "restart":
                     # stop (clean / now), keep ticking until the scheduler exits, then boot again
                     from cylc.flow.workflow_status import StopMode
                     mode = {"clean": StopMode.REQUEST_CLEAN, "now": StopMode.REQUEST_NOW,
@@ -644,6 +731,31 @@ async def run_scenario(scn: dict, home: Path) -> dict:
             ev("tick", n=tick)
             n0 = len(REC)
             alive = await sess.tick()
+            if pending_crash is not None:
+                # the process dies: nothing it had not committed survives
+                CRASH["crashed"] = True
+                ev("crash", stmts_left=CRASH["left"], alive=alive)
+                pending_crash = None
+                await sess.abandon()
+                try:
+                    while True:
+                        m = schd.message_queue.get_nowait()
+                        jt = m.job_id
+                        i_ = [int(jt["cycle"]), jt["task"]]
+                        world.msgs.append((tick + 1, jt, m.message, i_, int(jt["job"]),
+                                           world.sent.get((tuple(i_), int(jt["job"]), m.message), 0)))
+                        ev("undelivered", id=i_, message=m.message)
+                except Exception:   # queue.Empty
+                    pass
+                # commands the dead process never ran are lost with it
+                world.pending = []
+                CRASH.update({"left": None, "crashed": False, "conns": []})
+                meta["restarts"] += 1
+                sess = Session(wid, scn, world, rng, restart=True)
+                schd = await sess.boot()
+                ev("restarted", snap=snapshot(schd), crash=True)
+                idle = 0
+                continue
             if not alive:
                 await sess.finish()
                 meta["stop"] = sess.stop_reason
@@ -723,7 +835,7 @@ def run_many(scenarios: list, home: Path) -> list:
             if s.get("baseline"):
                 # the same scenario without its restart ops: the uninterrupted run
                 s2 = dict(s)
-                s2["ops"] = [o for o in s.get("ops", []) if o["cmd"] != "restart"]
+                s2["ops"] = [o for o in s.get("ops", []) if o["cmd"] not in ("restart", "crash")]
                 r2 = await run_scenario(s2, home)
                 r["baseline"] = {"summary": summary(r2["trace"]), "stop": r2["meta"]["stop"],
                                  "error": r2["meta"]["error"]}
